@@ -1,8 +1,26 @@
-(** C11_micro. Writes split between building the command and sending it
+(** C11_micro. Writes split between building the command and sending it; the queue at every micro step
     This file only pins statements: every theorem restates a lemma of proofs/ verbatim and is closed by it. *)
 From CacheD Require Import Base Sketch Model Window Micro.
 From CacheD.proofs Require Import Defs ApiProofs HistoryProofs StatsProofs.
-From CacheD.proofs Require Import MicroProofs.
+From CacheD.proofs Require Import MicroProofs MicroFifo.
+
+(** (C11 for every micro step, no condition on the state or the event): whatever micro step is taken - by a
+   caller at any schedule point, by the worker inside any command, by the sweeper, the consumer, any stage of shutdown() -
+   the command queue either grows at its tail, or loses its head to the (live) worker, or is emptied by the worker
+   executing Shutdown at its head *)
+Theorem C11_micro_queue_fifo_all :
+  forall cfg ms ev, qstep (mbase ms) (mbase (fst (mstep cfg ms ev))).
+Proof. exact micro_queue_fifo_all. Qed.
+Print Assumptions C11_micro_queue_fifo_all.
+
+(** (one at a time): the worker takes a command from the queue only when it has none in flight - neither inside a
+   Delete or a put (Micro.v's windows) nor inside a put with time-to-live (Window.v's window) *)
+Theorem C11_micro_worker_one_at_a_time :
+  forall cfg ms orc,
+  wdel ms <> None \/ wpending (win ms) <> None ->
+  mstep cfg ms (MWorker1 orc) = (ms, [6]) /\ mstep cfg ms (MWin (WBase (EWorker orc))) = (ms, [6]).
+Proof. exact micro_worker_one_at_a_time. Qed.
+Print Assumptions C11_micro_worker_one_at_a_time.
 
 (** the micro steps of one call, executed back to back by a caller that is not inside another call, are the
    atomic call of Model.v: same state, same observation, and the caller is out of every window again *)
